@@ -14,6 +14,12 @@ answer: `err` when `segmentNumbersOK` is false (the real call fails on `File.Val
         `C=<side> D=<side>` with side = `nil` (no batch) or `<B>|<B>|…` in output order, B as above with
         `<number>` = the batch number after `createNumbers 1` (what `File.Create` leaves in the output file's header).
 Anything malformed: `bad-op`.
+
+`segmentiat <std side> <iat side>` (each `-` or `<B>|…`): a file with IAT batches.  `segmentFileIATBatches` splits IAT
+batches exactly like standard ones (its case lists are the generated `segIatCreditCodes` / `segIatDebitCodes`; the
+driver answers `nomodel` unless they equal the standard lists, which `Props.C11.segment_iat_lists_same` proves on the
+current source), the fresh halves are numbered 1, and `File.Create` numbers standard then IAT batches with one counter;
+only the standard batches' numbers are validated.  Answer: `err` or `C=<std>;<iat> D=<std>;<iat>`.
 -/
 namespace Ach.SegmentDriver
 open Ach.Segment
@@ -53,6 +59,31 @@ def run (args : List String) : String :=
         s!"C={showSide r.1} D={showSide r.2}"
       else "err"
     | none => "bad-op"
+  | _ => "bad-op"
+
+def parseSide (s : String) : Option (List SBatch) :=
+  if s = "-" then some [] else (s.splitOn "|").mapM parseBatch
+
+def showNumbered (bs : List SBatch) (nums : List Int) : String :=
+  if bs.isEmpty then "nil" else "|".intercalate ((bs.zip nums).map (fun p => showBatch p.1 p.2))
+
+/-- one output file: standard batches then IAT batches, numbered by one `createNumbers` pass -/
+def showFile (std iat : List SBatch) : String :=
+  let nums := createNumbers 1 ((std ++ iat).map (·.number))
+  s!"{showNumbered std (nums.take std.length)};{showNumbered iat (nums.drop std.length)}"
+
+def runIat (args : List String) : String :=
+  match args with
+  | [std, iat] =>
+    if Ach.segIatCreditCodes ≠ Ach.segCreditCodes || Ach.segIatDebitCodes ≠ Ach.segDebitCodes then "nomodel" else
+    match parseSide std, parseSide iat with
+    | some bs, some is =>
+      if segmentNumbersOK bs then
+        let r := segment bs
+        let ri := segment is
+        s!"C={showFile r.1 ri.1} D={showFile r.2 ri.2}"
+      else "err"
+    | _, _ => "bad-op"
   | _ => "bad-op"
 
 end Ach.SegmentDriver
